@@ -10,6 +10,7 @@ import pickle
 import random
 import shutil
 import tempfile
+import zlib
 
 import numpy as np
 
@@ -54,7 +55,7 @@ class World(object):
         self.filts = ['f%d' % j for j in range(nb)]
         self.wavs = fw.band_wavelengths(nb)
         fw.build_indep_package(self.dir, names, grid, self.filts, self.wavs)
-        self.law = fw.make_extinction(K, self.wavs)
+        self.law = fw.make_extinction(K, self.wavs, variety=zlib.crc32(repr((names, grid, K, ulo, uhi)).encode()))
         self.fitter = fw.make_fitter(self.dir, self.filts, self.law, ulo, uhi)
 
     def fit(self, source):
@@ -329,9 +330,21 @@ def do_replay(ctx, emitted, mode):
     return groups
 
 
+def four_band(ctx, name, invariants):
+    """4-band sources over flags {1, 2, 3} with two DIFFERENT non-zero confidences: the smallest sources that can carry a lower
+    AND an upper limit (or two limits of one kind) next to a non-singular regression"""
+    q = not ctx.thorough
+    mod = 16 if q else 4
+    c2 = mc_constants(ctx, nb=4, flags='{1, 2, 3}', ys='{4, 11}', qs='{2, 4}', mod=mod, cfgmod=(5 if q else 3))
+    c2['SampleRes'] = ctx.seed % mod
+    r2 = run_mc(ctx, name, c2, invariants)
+    ctx.notes['four_band_behaviours'] = len(r2['emitted'])
+    return r2['emitted']
+
+
 def run_C01(ctx):
     res = run_mc(ctx, 'c01.cfg', mc_constants(ctx), ['KKTInv', 'BeatsInv', 'ChiIsMinPlusPenalties', 'EmitInv'])
-    em = res['emitted']
+    em = res['emitted'] + four_band(ctx, 'c01_n4.cfg', ['KKTInv', 'ChiIsMinPlusPenalties', 'EmitInv'])
     if not em:
         raise MachineryError('no behaviours emitted')
     ctx.sample({'behaviour': em[len(em) // 2]})
@@ -345,7 +358,7 @@ def run_C01(ctx):
 
 def run_C04(ctx):
     res = run_mc(ctx, 'c04.cfg', mc_constants(ctx), ['RankExists', 'PredMatches', 'EmitInv'])
-    em = res['emitted']
+    em = res['emitted'] + four_band(ctx, 'c04_n4.cfg', ['RankExists', 'PredMatches', 'EmitInv'])
     ctx.sample({'behaviour': em[len(em) // 3]})
     ctx.notes['behaviours_emitted'] = len(em)
     do_replay(ctx, em, 'C04')
@@ -382,7 +395,7 @@ def run_C11(ctx):
     q = not ctx.thorough
     consts = mc_constants(ctx, mod=(16 if q else 8))
     res = run_mc(ctx, 'c11.cfg', consts, ['PermuteBands', 'ScaleFlux', 'EmitInv'])
-    em = res['emitted']
+    em = res['emitted'] + four_band(ctx, 'c11_n4.cfg', ['PermuteBandsSome' if not ctx.thorough else 'PermuteBands', 'EmitInv'])
     ctx.sample({'behaviour': em[len(em) // 2]})
     ctx.notes['behaviours_emitted'] = len(em)
     # history: all behaviours of one configuration go through ONE fitter, in seed-shuffled order
